@@ -293,7 +293,8 @@ fn octal(b: u8, digits: usize) -> Vec<u8> {
 
 /// all spellings of byte `b` at this position; index 0 is canonical. `next` is the following value byte (if any).
 fn byte_spellings(b: u8, raw_parens: bool, next: Option<u8>) -> Vec<Vec<u8>> {
-    let next_is_digit = next.map(|n| n.is_ascii_digit()).unwrap_or(false);
+    // a short octal code ends at the first byte that is not an octal digit: `8` and `9` end it too
+    let next_is_digit = next.map(|n| (b'0'..=b'7').contains(&n)).unwrap_or(false);
     let mut v: Vec<Vec<u8>> = vec![];
     match b {
         b'(' | b')' => {
